@@ -30,11 +30,15 @@ check_C04() {
 check_C20() {
   build_inpkg c20_sendfaults_verif_test.go
   inpkg_test inpkg TestVerifC20
+  build_proxy
+  wire_part wire reset
 }
 
 check_C11() {
   build_inpkg c11_tcpframing_verif_test.go
   inpkg_test inpkg TestVerifC11
+  build_proxy
+  wire_part wire segments
 }
 
 check_C10() {
